@@ -166,6 +166,27 @@ def run(ctx, model=None):
         check_case(ctx, g, model)
         if ctx.time_left() < 0:
             return
+    # reachability phase on arbitrary well-formed games (several final states, final states that are not
+    # absorbing, player cycles): 'no solution' exactly when the exact value of state 0 is 0, no other error
+    for k in range(150 if ctx.quick() else 4000):
+        g = gen.multi_final_game(rng) if k % 5 == 0 else gen.free_game(rng)
+        ctx.case({"game": gen.desc(g), "phase": "reachability"}, len(g["final_states"]) > 1)
+        r = impl.reach_only(g, prune=True)
+        xtl = gen.exact_tl(g)
+        if r["outcome"] == "Timeout" or oracles.count_profiles(g["players"], xtl) > 400 or len(g["players"]) > 14:
+            continue
+        v0 = oracles.game_reach_value(g["players"], xtl, g["final_states"])[0]
+        inp = {"game": gen.desc(g), "prune": True, "phase": "reachability"}
+        if r["outcome"] == "ok":
+            if v0 == 0:
+                ctx.violation("no-solution-not-raised", inp, {"probs": r["probs"]})
+        elif r["outcome"] == "ValueError:nosolution":
+            if v0 != 0:
+                r2 = impl.reach_only(g, prune=False)
+                sig = KEY_SOLV if (r2["outcome"] == "ok" and r2["probs"][0] == 0 and v0 <= 10 * THR) else None
+                ctx.violation("no-solution-iff-value-zero", inp, {"true_value_state0": v0}, key=sig)
+        else:
+            ctx.violation("no-other-error", inp, {"outcome": r["outcome"], "msg": r.get("msg")})
     for n in ([50, 1200] if ctx.quick() else [50, 1200, 3000]):
         check_case(ctx, chain_game(n, rng), model, limit=60.0)
 
